@@ -13,7 +13,7 @@ import re as _re
 import z3
 
 from . import types as T
-from .types import Ty, Ref, NONE, sort_of, parse as ty
+from .types import AND, OR, Ty, Ref, NONE, sort_of, parse as ty
 from .source import SourceError, header_text, strip_docstring
 from .contract import Clause, Contract, Loop
 
@@ -146,12 +146,43 @@ class ExcHierarchy:
         return b.split(".")[-1] in [x.split(".")[-1] for x in self.mro(a)]
 
 
+_REC_CACHE = {}
+
+
+def _const_ids(f):
+    """ids of the uninterpreted constants occurring in f."""
+    out, seen, todo = set(), set(), [f]
+    while todo:
+        t = todo.pop()
+        i = t.get_id()
+        if i in seen:
+            continue
+        seen.add(i)
+        if z3.is_quantifier(t):
+            todo.append(t.body())
+        elif z3.is_app(t):
+            if t.num_args() == 0 and t.decl().kind() == z3.Z3_OP_UNINTERPRETED:
+                out.add(i)
+            for k in range(t.num_args()):
+                todo.append(t.arg(k))
+    return out
+
+
+def _alpha_key(f):
+    """A key that identifies quantified facts up to the names of their bound variables."""
+    if z3.is_quantifier(f):
+        return ("q", f.is_forall(), f.num_vars(), tuple(str(f.var_sort(i)) for i in range(f.num_vars())), f.body().sexpr())
+    return ("g", f.get_id())
+
+
 # --------------------------------------------------------------------------- engine
 class State:
     def __init__(self):
         self.loc = {}
         self.heap = {}
         self.pc = []
+        self.glob = []          # global facts (well-typedness of the heap), never captured as guards
+        self.glob_keys = set()
         self.handling = []      # stack of exceptions currently being handled (for bare `raise`)
 
 
@@ -229,7 +260,7 @@ class Engine:
 
     def isinstance_term(self, term, clsname):
         subs = self.subclasses(clsname) or [clsname]
-        return z3.Or([self.typeof(term) == self.class_id(s) for s in subs])
+        return OR([self.typeof(term) == self.class_id(s) for s in subs])
 
     # ----------------------------------------------------------------- run control
     def reset_run(self, choices):
@@ -240,7 +271,9 @@ class Engine:
         self.counter = 0
         self.spec_depth = 0
         self.quant_depth = 0
+        self.bound_stack = []
         self.old_heap = None
+        self.loop_heap = None
         self.call_depth = 0
         self.cur_stmt = None
 
@@ -270,6 +303,7 @@ class Engine:
             return True
         s = z3.Solver()
         s.set("timeout", self.FEAS_TIMEOUT_MS)
+        s.add(*self.st.glob)
         s.add(*self.st.pc)
         s.add(extra)
         return s.check() != z3.unsat
@@ -293,6 +327,22 @@ class Engine:
     def assume(self, f):
         self.st.pc.append(f)
 
+    def assume_global(self, f):
+        """A fact about the well-typedness of the heap: universally closed over the bound variables in scope and
+        kept outside the path condition proper, so that it never ends up as the guard of an implication."""
+        f = z3.simplify(f)
+        if z3.is_true(f):
+            return
+        if self.bound_stack:
+            ids = _const_ids(f)
+            bv = [b for b in self.bound_stack if b.get_id() in ids]
+            if bv:
+                f = z3.ForAll(bv, f)
+        key = _alpha_key(f)
+        if key not in self.st.glob_keys:
+            self.st.glob_keys.add(key)
+            self.st.glob.append(f)
+
     # ----------------------------------------------------------------- obligations
     def oblige(self, label, kind, goal, props=(), text=""):
         if self.spec_depth and kind == "safety":
@@ -301,7 +351,7 @@ class Engine:
         name = "%s::%s" % (self.cur_func, label)
         if not z3.is_true(g):
             where = header_text(self.cur_stmt) if self.cur_stmt is not None else ""
-            self.obligations.append(Obligation(name, kind, list(self.st.pc), goal, props or self.cur_props,
+            self.obligations.append(Obligation(name, kind, list(self.st.glob) + list(self.st.pc), goal, props or self.cur_props,
                                                self.cur_func, where, text))
         else:
             self.trivial += 1
@@ -360,46 +410,70 @@ class Engine:
         """Well-typedness facts about a value just read from the heap / received from outside."""
         t_ = v.ty
         k = t_.kind
+        if (self.spec_depth or self.quant_depth) and not getattr(self, "_collecting", False):
+            # inside a specification: type facts are global well-typedness facts, not guards
+            with_alloc = False
+            self._collecting = True
+            mark = len(self.st.pc)
+            try:
+                self.assume_type(v, depth, False)
+                facts = self.st.pc[mark:]
+                del self.st.pc[mark:]
+            finally:
+                self._collecting = False
+            for f in facts:
+                self.assume_global(f)
+            return
         al = z3.Select(self.alloc_map(), v.t) if (with_alloc and t_.is_reflike) else z3.BoolVal(True)
         if k == "ref":
-            self.assume(z3.And(v.t != NONE, al, self.isinstance_term(v.t, t_.args[0])))
+            self.assume(AND(v.t != NONE, al, self.isinstance_term(v.t, t_.args[0])))
         elif k == "opt" and t_.args[0].is_reflike:
             inner = t_.args[0]
             if inner.kind == "ref":
-                self.assume(z3.Or(v.t == NONE, z3.And(al, self.isinstance_term(v.t, inner.args[0]))))
+                self.assume(OR(v.t == NONE, AND(al, self.isinstance_term(v.t, inner.args[0]))))
             else:
-                self.assume(z3.Or(v.t == NONE, al))
+                self.assume(OR(v.t == NONE, al))
         elif k in ("list", "deque", "set", "dict"):
-            self.assume(z3.And(v.t != NONE, al))
+            self.assume(AND(v.t != NONE, al))
         elif k == "seq":
             self.assume(v.t != NONE)
         elif k == "enum":
             vals = self.enum_values(t_.args[0])
             if vals:
-                self.assume(z3.Or([v.t == x for x in sorted(set(vals.values()))]))
+                self.assume(OR([v.t == x for x in sorted(set(vals.values()))]))
 
-    # ---- containers
+    # ---- containers (heap objects; the region of the static type selects the heap maps)
+    def IA(self):
+        return z3.ArraySort(Ref, z3.IntSort())
+
+    def k_len(self, t_):
+        return ("$slen" if t_.kind == "seq" else "$len") + t_.region
+
     def el_key(self, t_):
         s = sort_of(t_.elem)
         pre = "$sel:" if t_.kind == "seq" else "$el:"
-        return pre + self.tag(s), z3.ArraySort(Ref, z3.ArraySort(z3.IntSort(), s))
+        return pre + self.tag(s) + t_.region, z3.ArraySort(Ref, z3.ArraySort(z3.IntSort(), s))
+
+    def hsel(self, key, ref):
+        return z3.Select(self.hget(key, self.IA()), ref)
+
+    def hstore(self, key, ref, val):
+        self.hset(key, z3.Store(self.hget(key, self.IA()), ref, val))
 
     def seq_len(self, v):
         k = v.ty.kind
-        if k == "list":
-            n = z3.Select(self.hget("$len", z3.ArraySort(Ref, z3.IntSort())), v.t)
-        elif k == "seq":
-            n = z3.Select(self.hget("$slen", z3.ArraySort(Ref, z3.IntSort())), v.t)
+        rg = v.ty.region
+        if k in ("list", "seq"):
+            n = self.hsel(self.k_len(v.ty), v.t)
         elif k == "deque":
-            n = z3.Select(self.hget("$dhi", z3.ArraySort(Ref, z3.IntSort())), v.t) - \
-                z3.Select(self.hget("$dlo", z3.ArraySort(Ref, z3.IntSort())), v.t)
+            n = self.hsel("$dhi" + rg, v.t) - self.hsel("$dlo" + rg, v.t)
         elif k in ("set", "dict"):
-            n = z3.Select(self.hget("$card", z3.ArraySort(Ref, z3.IntSort())), v.t)
+            n = self.hsel("$card" + rg, v.t)
         elif k == "str":
             return z3.Length(v.t)
         else:
             raise Unsupported("len of %r" % (v.ty,))
-        self.assume(n >= 0)
+        self.assume_global(n >= 0)
         return n
 
     def seq_arr(self, v):
@@ -408,7 +482,7 @@ class Engine:
 
     def seq_base(self, v):
         if v.ty.kind == "deque":
-            return z3.Select(self.hget("$dlo", z3.ArraySort(Ref, z3.IntSort())), v.t)
+            return self.hsel("$dlo" + v.ty.region, v.t)
         return z3.IntVal(0)
 
     def seq_at(self, v, i):
@@ -417,7 +491,7 @@ class Engine:
     def new_ref(self, t_, base="new"):
         r = self.fresh(base, Ref)
         am = self.alloc_map()
-        self.assume(z3.And(r != NONE, z3.Not(z3.Select(am, r))))
+        self.assume(AND(r != NONE, z3.Not(z3.Select(am, r))))
         self.hset("$alloc", z3.Store(am, r, z3.BoolVal(True)))
         return r
 
@@ -431,75 +505,76 @@ class Engine:
             arr = z3.Store(arr, z3.IntVal(i), self.coerce(it, t_.elem).t)
         self.hset(key, z3.Store(self.hget(key, srt), r, arr))
         if t_.kind == "deque":
-            self.hset("$dlo", z3.Store(self.hget("$dlo", z3.ArraySort(Ref, z3.IntSort())), r, z3.IntVal(0)))
-            self.hset("$dhi", z3.Store(self.hget("$dhi", z3.ArraySort(Ref, z3.IntSort())), r, z3.IntVal(len(items))))
+            self.hstore("$dlo" + t_.region, r, z3.IntVal(0))
+            self.hstore("$dhi" + t_.region, r, z3.IntVal(len(items)))
         else:
-            lk = "$slen" if t_.kind == "seq" else "$len"
-            self.hset(lk, z3.Store(self.hget(lk, z3.ArraySort(Ref, z3.IntSort())), r, z3.IntVal(len(items))))
+            self.hstore(self.k_len(t_), r, z3.IntVal(len(items)))
         return v
 
     def list_append(self, lst, item):
         item = self.coerce(item, lst.ty.elem)
         key, srt = self.el_key(lst.ty)
+        rg = lst.ty.region
         if lst.ty.kind == "deque":
-            hi = z3.Select(self.hget("$dhi", z3.ArraySort(Ref, z3.IntSort())), lst.t)
+            hi = self.hsel("$dhi" + rg, lst.t)
             arr = z3.Store(self.seq_arr(lst), hi, item.t)
             self.hset(key, z3.Store(self.hget(key, srt), lst.t, arr))
-            self.hset("$dhi", z3.Store(self.hget("$dhi", None), lst.t, hi + 1))
+            self.hstore("$dhi" + rg, lst.t, hi + 1)
             return
         n = self.seq_len(lst)
         arr = z3.Store(self.seq_arr(lst), n, item.t)
         self.hset(key, z3.Store(self.hget(key, srt), lst.t, arr))
-        self.hset("$len", z3.Store(self.hget("$len", None), lst.t, n + 1))
+        self.hstore(self.k_len(lst.ty), lst.t, n + 1)
 
     def list_pop(self, lst, left=False):
         n = self.seq_len(lst)
-        self.oblige("pop from empty %s" % lst.ty.kind, "safety", n > 0)
+        rg = lst.ty.region
+        self.oblige("IndexError: pop from an empty %s" % lst.ty.kind, "safety", n > 0)
         if lst.ty.kind == "deque":
-            lo = z3.Select(self.hget("$dlo", None), lst.t)
-            hi = z3.Select(self.hget("$dhi", None), lst.t)
+            lo, hi = self.hsel("$dlo" + rg, lst.t), self.hsel("$dhi" + rg, lst.t)
             if left:
                 res = V(lst.ty.elem, z3.Select(self.seq_arr(lst), lo))
-                self.hset("$dlo", z3.Store(self.hget("$dlo", None), lst.t, lo + 1))
+                self.hstore("$dlo" + rg, lst.t, lo + 1)
             else:
                 res = V(lst.ty.elem, z3.Select(self.seq_arr(lst), hi - 1))
-                self.hset("$dhi", z3.Store(self.hget("$dhi", None), lst.t, hi - 1))
+                self.hstore("$dhi" + rg, lst.t, hi - 1)
         else:
             if left:
                 raise Unsupported("list.pop(0)")
             res = V(lst.ty.elem, z3.Select(self.seq_arr(lst), n - 1))
-            self.hset("$len", z3.Store(self.hget("$len", None), lst.t, n - 1))
+            self.hstore(self.k_len(lst.ty), lst.t, n - 1)
         self.assume_type(res)
         return res
 
     def list_clear(self, lst):
+        rg = lst.ty.region
         if lst.ty.kind == "deque":
-            lo = z3.Select(self.hget("$dlo", z3.ArraySort(Ref, z3.IntSort())), lst.t)
-            self.hset("$dhi", z3.Store(self.hget("$dhi", z3.ArraySort(Ref, z3.IntSort())), lst.t, lo))
+            self.hstore("$dhi" + rg, lst.t, self.hsel("$dlo" + rg, lst.t))
         else:
-            self.hset("$len", z3.Store(self.hget("$len", z3.ArraySort(Ref, z3.IntSort())), lst.t, z3.IntVal(0)))
+            self.hstore(self.k_len(lst.ty), lst.t, z3.IntVal(0))
 
     def set_key(self, t_):
         s = sort_of(t_.elem)
-        return "$set:" + self.tag(s), z3.ArraySort(Ref, z3.ArraySort(s, z3.BoolSort()))
+        return "$set:" + self.tag(s) + t_.region, z3.ArraySort(Ref, z3.ArraySort(s, z3.BoolSort()))
 
     def set_mem(self, sv):
         key, srt = self.set_key(sv.ty)
         return z3.Select(self.hget(key, srt), sv.t)
 
-    def card(self, ref):
-        return z3.Select(self.hget("$card", z3.ArraySort(Ref, z3.IntSort())), ref)
+    def card(self, cv):
+        return self.hsel("$card" + cv.ty.region, cv.t)
 
-    def set_card(self, ref, n):
-        self.hset("$card", z3.Store(self.hget("$card", z3.ArraySort(Ref, z3.IntSort())), ref, n))
+    def set_card(self, cv, n):
+        self.hstore("$card" + cv.ty.region, cv.t, n)
 
     def new_set(self, t_):
         t_ = ty(t_)
         r = self.new_ref(t_, "set")
         key, srt = self.set_key(t_)
         self.hset(key, z3.Store(self.hget(key, srt), r, z3.K(sort_of(t_.elem), z3.BoolVal(False))))
-        self.set_card(r, z3.IntVal(0))
-        return V(t_, r)
+        v = V(t_, r)
+        self.set_card(v, z3.IntVal(0))
+        return v
 
     def set_add(self, sv, item):
         item = self.coerce(item, sv.ty.elem)
@@ -507,8 +582,8 @@ class Engine:
         mem = self.set_mem(sv)
         was = z3.Select(mem, item.t)
         self.hset(key, z3.Store(self.hget(key, srt), sv.t, z3.Store(mem, item.t, z3.BoolVal(True))))
-        c = self.card(sv.t)
-        self.set_card(sv.t, z3.If(was, c, c + 1))
+        c = self.card(sv)
+        self.set_card(sv, z3.If(was, c, c + 1))
 
     def set_remove(self, sv, item, strict=True):
         item = self.coerce(item, sv.ty.elem)
@@ -518,13 +593,14 @@ class Engine:
         if strict:
             self.oblige("KeyError: set.remove of a missing element", "safety", was)
         self.hset(key, z3.Store(self.hget(key, srt), sv.t, z3.Store(mem, item.t, z3.BoolVal(False))))
-        c = self.card(sv.t)
-        self.set_card(sv.t, z3.If(was, c - 1, c))
+        c = self.card(sv)
+        self.set_card(sv, z3.If(was, c - 1, c))
 
     def dict_keys(self, t_):
         ks, vs = sort_of(t_.args[0]), sort_of(t_.args[1])
-        return ("$dom:" + self.tag(ks), z3.ArraySort(Ref, z3.ArraySort(ks, z3.BoolSort())),
-                "$map:%s:%s" % (self.tag(ks), self.tag(vs)), z3.ArraySort(Ref, z3.ArraySort(ks, vs)))
+        rg = t_.region
+        return ("$dom:" + self.tag(ks) + rg, z3.ArraySort(Ref, z3.ArraySort(ks, z3.BoolSort())),
+                "$map:%s:%s%s" % (self.tag(ks), self.tag(vs), rg), z3.ArraySort(Ref, z3.ArraySort(ks, vs)))
 
     def dict_dom(self, dv):
         dk, ds, mk, ms = self.dict_keys(dv.ty)
@@ -540,14 +616,15 @@ class Engine:
         dk, ds, mk, ms = self.dict_keys(t_)
         self.hset(dk, z3.Store(self.hget(dk, ds), r, z3.K(sort_of(t_.args[0]), z3.BoolVal(False))))
         self.hget(mk, ms)
-        self.set_card(r, z3.IntVal(0))
-        return V(t_, r)
+        v = V(t_, r)
+        self.set_card(v, z3.IntVal(0))
+        return v
 
     def dict_has(self, dv, key):
         key = self.coerce(key, dv.ty.args[0])
         has = z3.Select(self.dict_dom(dv), key.t)
         # finite-set axiom instance: a member implies positive cardinality
-        self.assume(z3.Implies(has, self.card(dv.t) > 0))
+        self.assume_global(z3.Implies(has, self.card(dv) > 0))
         return has
 
     def dict_get(self, dv, key, check=True):
@@ -566,18 +643,19 @@ class Engine:
         was = z3.Select(dom, key.t)
         self.hset(dk, z3.Store(self.hget(dk, ds), dv.t, z3.Store(dom, key.t, z3.BoolVal(True))))
         self.hset(mk, z3.Store(self.hget(mk, ms), dv.t, z3.Store(self.dict_map(dv), key.t, val.t)))
-        c = self.card(dv.t)
-        self.set_card(dv.t, z3.If(was, c, c + 1))
+        c = self.card(dv)
+        self.set_card(dv, z3.If(was, c, c + 1))
 
-    def dict_del(self, dv, key):
+    def dict_del(self, dv, key, strict=True):
         key = self.coerce(key, dv.ty.args[0])
         dk, ds, mk, ms = self.dict_keys(dv.ty)
         dom = self.dict_dom(dv)
         was = z3.Select(dom, key.t)
-        self.oblige("KeyError: del of a missing dict key", "safety", was)
+        if strict:
+            self.oblige("KeyError: del of a missing dict key", "safety", was)
         self.hset(dk, z3.Store(self.hget(dk, ds), dv.t, z3.Store(dom, key.t, z3.BoolVal(False))))
-        c = self.card(dv.t)
-        self.set_card(dv.t, c - 1)
+        c = self.card(dv)
+        self.set_card(dv, z3.If(was, c - 1, c))
 
     # ----------------------------------------------------------------- coercion / truthiness
     def coerce(self, v, t_):
@@ -785,5 +863,22 @@ class Engine:
     def spec_func(self, name):
         if name not in self._funcs:
             args, ret = self.reg.logic.funcs[name]
-            self._funcs[name] = (z3.Function(name, *[sort_of(a) for a in args], sort_of(ret)), [ty(a) for a in args], ty(ret))
+            if name in self.reg.logic.defs and getattr(self, "opaque_defs", True):
+                # outside lemma proofs a recursive definition is opaque: only its proved lemmas are used
+                self._funcs[name] = (z3.Function(name, *[sort_of(a) for a in args], sort_of(ret)), [ty(a) for a in args], ty(ret))
+            elif name in self.reg.logic.defs and name in _REC_CACHE:
+                self._funcs[name] = _REC_CACHE[name]
+            elif name in self.reg.logic.defs:
+                params, dret, body = self.reg.logic.defs[name]
+                f = z3.RecFunction(name, *[sort_of(a) for a in args], sort_of(ret))
+                self._funcs[name] = (f, [ty(a) for a in args], ty(ret))
+                _REC_CACHE[name] = self._funcs[name]
+                from . import solve
+                solve.REC_NAMES.add(name)
+                consts = [z3.Const("p_" + pn, sort_of(pt)) for pn, pt in params]
+                env = {pn: V(pt, c) for (pn, pt), c in zip(params, consts)}
+                bt = self.coerce(self.spec_value(body, env), ret).t
+                z3.RecAddDefinition(f, consts, bt)
+            else:
+                self._funcs[name] = (z3.Function(name, *[sort_of(a) for a in args], sort_of(ret)), [ty(a) for a in args], ty(ret))
         return self._funcs[name]
